@@ -159,7 +159,7 @@ protected:
 
 private:
     void cleanMimePrefix();
-    void unfoldMime();
+    bool unfoldMime();
 };
 
 /// skips and, if needed, warns about RFC 7230 BWS ("bad" whitespace)
